@@ -123,6 +123,11 @@ def bip173Decode (s : Bytes) : Outcome (Bytes × Nat × Bytes) :=
     | some [] => .err
     | some decoded => .ok (hrp, version, decoded.map UInt8.ofNat)
 
+/-- `None` is the reference's "invalid" -/
+def toOutcome {α : Type} : Option α → Outcome α
+  | some a => .ok a
+  | none => .err
+
 /-- `bech32_encode(hrp, [version] + convertbits(payload, 8, 5))` -/
 def bip173Encode (hrp : Bytes) (version : Nat) (payload : Bytes) : Option Bytes :=
   match convertbits (payload.map UInt8.toNat) 8 5 true with
